@@ -164,18 +164,26 @@ class Ctx:
             os.makedirs(EVIDENCE_DIR, exist_ok=True)
             with open(os.path.join(EVIDENCE_DIR, f"{self.prop}.json"), "w") as fh:
                 json.dump(ev, fh, indent=1, default=str)
-        print(f"[{self.prop}] tier={self.tier} obligations={n_ob} discharged={n_ok} "
+        _print(f"[{self.prop}] tier={self.tier} obligations={n_ob} discharged={n_ok} "
               f"functions={len(self.analysed['functions'])} wall={wall}s")
         for name, n in sorted(self.counts.items()):
             mn = self.minima.get(name)
-            print(f"  instances {name}: {n}" + (f" (min {mn})" if mn is not None else ""))
+            _print(f"  instances {name}: {n}" + (f" (min {mn})" if mn is not None else ""))
         for f in listed:
-            print(f"KNOWN-FINDING: property={self.prop} {f.rule} {f.func}: {f.construct} -- {kn[f.key].get('what', f.what)}")
+            _print(f"KNOWN-FINDING: property={self.prop} {f.rule} {f.func}: {f.construct} -- {kn[f.key].get('what', f.what)}")
         for i, f in enumerate(new):
-            print(f"  {f.rule} {f.file}:{f.line or '?'} {f.func}: `{f.construct}` -- {f.what}")
+            _print(f"  {f.rule} {f.file}:{f.line or '?'} {f.func}: `{f.construct}` -- {f.what}")
             rp = replay_paths[i] if self.write else "-"
-            print(f"VIOLATION property={self.prop} replay={rp}")
+            _print(f"VIOLATION property={self.prop} replay={rp}")
         return 1 if new else 0
+
+
+def _print(*a):
+    try:
+        import builtins
+        builtins.print(*a, flush=True)
+    except BrokenPipeError:
+        pass
 
 
 def load_known() -> dict:
